@@ -223,7 +223,7 @@ def query_kind(case, q, W=None):
 # --------------------------------------------------------------------------------------
 
 def gen_cases(ctx, count, n_range, k_range, weakly_modes, want=("ok",), q_per=6, consts=0.05, depth=2,
-              outside_sig=0.1, max_tries=40, ties=0.0, deep=0.12, flat=0.06, conj=0.06, big=0.04, rekey=0.0, cost=0.08, infchain=0.12):
+              outside_sig=0.1, max_tries=40, ties=0.0, deep=0.12, flat=0.06, conj=0.06, big=0.04, rekey=0.0, cost=0.08, infchain=0.12, subs=0.05):
     """generate cases whose base status (by brute force classification) is in `want`"""
     rng = ctx.rng
     cases = []
@@ -255,17 +255,22 @@ def gen_cases(ctx, count, n_range, k_range, weakly_modes, want=("ok",), q_per=6,
                 conds.append((("a", rng.randrange(n)) if rng.random() < 0.5 else ("!", ("a", rng.randrange(n))), ch))
             rng.shuffle(conds)
             queries = (core.gen_deep_pairs(rng, n, 2, conds) + list(queries))[:max(q_per, 4)] if q_per else []
+        elif rng.random() < cost and n_range[1] >= 5:
+            n = nq = rng.randint(max(5, n_range[0]), min(6, n_range[1]))
+            conds, queries = core.gen_cost_case(rng, n)
+            hintq = list(queries)
+            queries = queries[:q_per]
+        elif rng.random() < subs and n_range[1] >= 3:
+            n = nq = rng.randint(max(3, n_range[0]), min(4, n_range[1]))
+            conds, queries = core.gen_subsumed_case(rng, n)
+            hintq = list(queries)
+            queries = queries[:q_per]
         elif rng.random() < ties and n_range[1] >= 4:
             n = nq = rng.randint(max(4, n_range[0]), n_range[1])
             conds, queries = core.gen_tie_case(rng, n)
         elif weakly and rng.random() < infchain and n_range[1] >= 3:
             n = nq = rng.randint(max(3, n_range[0]), n_range[1])
             conds, queries = core.gen_infchain_case(rng, n)
-            hintq = list(queries)
-            queries = queries[:q_per]
-        elif rng.random() < cost and n_range[1] >= 5:
-            n = nq = rng.randint(max(5, n_range[0]), min(6, n_range[1]))
-            conds, queries = core.gen_cost_case(rng, n)
             hintq = list(queries)
             queries = queries[:q_per]
         elif rng.random() < conj and n_range[1] >= 3:
